@@ -218,6 +218,7 @@ def run_check(prop, tier, seed, replay=None):
     kf = [k for k in known.get("findings", []) if k["property"] == prop]
     import re
     by_sig = {}
+    beyond = {}
     machinery = []
     for (ti, pos, clause) in rejects:
         ev = traces[ti]["ev"][pos - 1]
@@ -226,11 +227,19 @@ def run_check(prop, tier, seed, replay=None):
             continue
         owner = clause.split(".")[0]
         sig = signature(owner, clause, ev)
+        if not re.fullmatch(r"C\d{2,3}", owner):
+            # clause of a behaviour the specification covers beyond the listed properties (prefix e.g. "X."):
+            # reported and recorded in the evidence, never a VIOLATION of a listed property
+            beyond.setdefault(sig, []).append((ti, pos, clause, ev))
+            continue
         by_sig.setdefault(sig, []).append((ti, pos, clause, ev))
     if machinery:
         ti, pos, clause, ev = machinery[0]
         raise MachineryError("trace spec reported %s at event %r (case %r)" % (clause, ev, cases[ti]))
 
+    for sig, hits in sorted(beyond.items()):
+        print("BEYOND-LIST-FINDING %s hits=%d event=%s" % (sig, len(hits), json.dumps(hits[0][3])[:300]))
+    ctx.extra["beyond_list_findings"] = [{"signature": k, "hits": len(v)} for k, v in sorted(beyond.items())]
     viol_dir = os.path.join(OUT, "violations", prop)
     os.makedirs(viol_dir, exist_ok=True)
     if not replay:
